@@ -22,7 +22,7 @@ REP = {"ident": "ab", "dash": "a-b", "dot": "a.b", "dotdigit": "a.1", "digitstar
        "plain-body": "exports.a = 1;", "line-comment-end": "exports.a = 1 // c", "no-semicolon": "exports.a = 1",
        "closing-tag-like": "var s = '</v>';", "template-literal": "var t = `a${1}b`;", "regex-star": "var r = /a*/; /* c */",
        "use-strict": "'use strict'; exports.a = 1", "squote-body": "var q = 'it\\'s';", "block-comment-end": "exports.a = 1 /* c */",
-       "empty-body": "", "int": "7", "bigfloat": "1e21", "tinyfloat": "1e-7", "overflow": "1e309"}
+       "empty-body": "", "html-close-comment-first": "--> the end of an HTML comment\nexports.a = 1", "html-open-comment-first": "<!-- hidden from old browsers\nexports.a = 1", "int": "7", "bigfloat": "1e21", "tinyfloat": "1e-7", "overflow": "1e309"}
 
 
 def xattr(s):
